@@ -434,8 +434,9 @@ func recParamStr(p *recPair) string {
 		cs.Out.ExplicitNonceLen != ss.Out.ExplicitNonceLen {
 		sym = 0
 	}
-	return fmt.Sprintf("gotvers=%d gotsuite=%d kind=%s mac=%d bs=%d ovh=%d enl=%d sym=%d", cs.Vers, cs.Suite,
-		cs.Out.Kind, cs.Out.MacSize, cs.Out.BlockSize, cs.Out.Overhead, cs.Out.ExplicitNonceLen, sym)
+	_, _, maxUseless, _, _, _, _, _ := tls.VerifFuzzConsts()
+	return fmt.Sprintf("gotvers=%d gotsuite=%d kind=%s mac=%d bs=%d ovh=%d enl=%d sym=%d mur=%d", cs.Vers, cs.Suite,
+		cs.Out.Kind, cs.Out.MacSize, cs.Out.BlockSize, cs.Out.Overhead, cs.Out.ExplicitNonceLen, sym, maxUseless)
 }
 
 // ---- the weak-suite child ----
@@ -569,6 +570,20 @@ func recGenSched(r *Rng, i int, tier string) string {
 				ops = append(ops, fmt.Sprintf("w%s:%d", side, recPickSize(r)))
 			}
 		}
+	}
+	// TLS 1.3: long runs of consecutive KeyUpdates from one side (around maxUselessRecords = 32), with
+	// or without update_requested, followed by data from that side; the peer then reads everything,
+	// and (with update_requested) its own run of responses is read back
+	if c.Vers == tls.VersionTLS13 && r.Intn(4) == 0 {
+		side := Pick(r, []string{"c", "s"})
+		other := map[string]string{"c": "s", "s": "c"}[side]
+		n := Pick(r, []int{31, 32, 33, 33, 34, 40, 64, 65, 100})
+		req := r.Intn(2)
+		for j := 0; j < n; j++ {
+			ops = append(ops, fmt.Sprintf("k%s:%d", side, req))
+		}
+		ops = append(ops, fmt.Sprintf("w%s:%d", side, 1+r.Intn(3000)), fmt.Sprintf("r%s:70000", other), fmt.Sprintf("r%s:70000", other),
+			fmt.Sprintf("w%s:%d", other, 1+r.Intn(300)), fmt.Sprintf("r%s:70000", side))
 	}
 	// long streams cross the 128 KiB boost threshold and the 16 384 cap of the progression
 	if r.Intn(10) == 0 {
